@@ -381,7 +381,7 @@ Proof.
   - destruct (g_min1 g =? 0); cbn [fst stop]; [|reflexivity].
     destruct (g_min3 g =? 0); cbn [fst]; [|reflexivity].
     rewrite !norm_app. f_equal. f_equal. destruct (grow sh g); [apply root_write_numrecs|reflexivity].
-  - destruct (f_global f1 || negb (f_valid f1)) eqn:A1, (f_global f2 || negb (f_valid f2)) eqn:A2; cbn [orb] in H; cbn [fst];
+  - destruct (fill_derr sh f1 =? 0) eqn:A1, (fill_derr sh f2 =? 0) eqn:A2; cbn [negb orb] in H; cbn [negb fst stop];
       destruct (fill_drv_err f1 =? 0) eqn:B1, (fill_drv_err f2 =? 0) eqn:B2; cbn in H; try discriminate H; cbn [fst stop]; try reflexivity.
     rewrite !norm_app. f_equal. destruct (grow sh g); [apply root_write_numrecs|reflexivity].
 Qed.
@@ -844,12 +844,7 @@ Proof. split; [repeat constructor | vm_compute; reflexivity]. Qed.
 Example refuted_fill_var_rec :
   refutes (cfg0 2) sh_data A_fill_var_rec [LFill (mkF false true true false 2 true); LFill (mkF false true true true 2 false)].
 Proof. split; [repeat constructor | vm_compute; reflexivity]. Qed.
-(* del_att in SAFE mode: a bad varid returns before the first Allreduce *)
 Definition sh_define : shared := mkSh MDefine false false 6 2 2 false 1 false false false false [] [] 0 0 0 0 0 0.
-Example refuted_del_att_safe :
-  refutes (mkCfg true false false false 2 0) sh_define (A_meta M_del_att)
-          [LMeta (mkM 0 0 0 0); LMeta (mkM NC_ENOTVAR 0 0 0)].
-Proof. split; [repeat constructor | vm_compute; reflexivity]. Qed.
 (* metadata call in data mode with the header written collectively (romio_no_indep_rw), no safe mode *)
 Example refuted_rename_hcoll :
   refutes (mkCfg false true false false 2 0) sh_data (A_meta M_rename_var)
@@ -879,7 +874,7 @@ Definition valid_local (l : local) : Prop :=
   match l with
   | LReq r => d_err r = 0 /\ d_drv_err r = 0
   | LWait w => w_err w = 0 /\ w_badid w = false
-  | LFill f => f_global f = false /\ f_valid f = true /\ fill_drv_err f = 0
+  | LFill f => f_global f = false /\ f_valid f = true /\ f_isrec f = true /\ fill_drv_err f = 0
   | _ => True
   end.
 
@@ -948,7 +943,8 @@ Proof.
     eexists; split; [reflexivity|]. reflexivity.
   - (* wait_all *) destruct V as [_ B]. destruct SO as [MC _]. rewrite MC. cbn [snd]. rewrite B, AE. cbn.
     eexists; split; [reflexivity|]. reflexivity.
-  - (* fill_var_rec *) destruct V as [G [Vv D]]. rewrite G, Vv, D. cbn.
+  - (* fill_var_rec *) destruct V as [G [Vv [R D]]]. destruct SO as [MC RO].
+    unfold fill_derr. rewrite RO, MC, G, Vv, R, D. cbn.
     eexists; split; [reflexivity|]. reflexivity.
 Qed.
 
@@ -1068,10 +1064,9 @@ Proof.
 Qed.
 
 (* ================================================================== crashes *)
-(* the only undefined behaviour of the model: fill_var_rec without safe mode and a bad varid *)
-Theorem crash_only_fill_var_rec : forall c sh a g r l,
-  cret c sh a g r l = Crash ->
-  a = A_fill_var_rec /\ c_safe c = false /\ exists f, l = LFill f /\ (f_global f = true \/ f_valid f = false).
+(* no path of the model ends in undefined behaviour (ncmpi_fill_var_rec returns its own error before
+   entering the driver since commit 080701ed) *)
+Theorem never_crashes : forall c sh a g r l, cret c sh a g r l <> Crash.
 Proof.
   intros c sh a g r l H. unfold cret, exec in H.
   destruct (multi c); [|discriminate H]. cbn [negb] in H.
@@ -1084,6 +1079,4 @@ Proof.
            | snd (let (_, _) := ?x in _) = _ => destruct x eqn:?
            end; cbn [snd stop] in H; try discriminate H.
   all: try (match goal with E : (if ?b then _ else _) = (_, _) |- _ => destruct b; inversion E; subst; discriminate end).
-  all: try (split; [reflexivity | split; [reflexivity|]]; eexists; split; [reflexivity|];
-            match goal with E : (_ || negb _) = true |- _ => apply orb_true_iff in E; destruct E as [E|E]; [left; exact E | right; apply negb_true_iff in E; exact E] end).
 Qed.
